@@ -139,6 +139,9 @@ def generate(rng: random.Random, w: Optional[int] = None, n_statements: Optional
         elif kind == 'wflip':
             st['addr'] = curr
             st['explicit_r'] = rng.random() < 0.6
+            if rng.random() < 0.35:
+                st['cluster'] = rng.randrange(2)  # members of a cluster share v and r and target nearby bit addresses
+                st['explicit_r'] = True
             curr += dw
         elif kind == 'pad':
             nops = rng.choice([1, 2, 2, 4, 8, 3])
@@ -240,6 +243,7 @@ def generate(rng: random.Random, w: Optional[int] = None, n_statements: Optional
     visible_consts: Dict[str, int] = {'w': w}
     earlier_labels: Dict[str, int] = {}
     in_seg_words = sorted(curr_check)
+    clusters: Dict[Any, Tuple[int, int, int]] = {}
 
     def some_address() -> int:
         r = rng.random()
@@ -280,6 +284,14 @@ def generate(rng: random.Random, w: Optional[int] = None, n_statements: Optional
             a_val = (rng.choice(in_seg_words) * w) if in_seg_words and rng.random() < 0.8 else (rng.randrange(0, top // w) * w)
             v_val = rng.choice([0, 1, 2, 3, mask, 1 << (w - 1), rng.getrandbits(w), rng.getrandbits(w) & rng.getrandbits(w), 0b101])
             r_val = some_target() if st['explicit_r'] else dollar
+            if rng.random() < 0.3:
+                a_val = (a_val + rng.randrange(1, w)) & mask  # the target need not be word-aligned
+            if 'cluster' in st:
+                key = ('cluster', st['cluster'])
+                if key not in clusters:
+                    clusters[key] = (a_val, rng.choice([0b110, 0b11, 0b1011, (1 << (w // 2)) | 6, rng.getrandbits(w) | 6]), r_val)
+                base_a, v_val, r_val = clusters[key]
+                a_val = (base_a + rng.choice([0, 1, 2, 2, 3, 4, w, w + 2, 2 * w])) & mask
             model.wflips.append({'addr': st['addr'], 'a': a_val, 'v': v_val, 'r': r_val, 'stmt': i})
             body = f'wflip {expr_for(rng, a_val, names_any, dollar)}, {expr_for(rng, v_val, names_any, dollar)}'
             if st['explicit_r']:
